@@ -33,8 +33,12 @@ def parseLine (l : Line) : Option Obs := do
          err := ← (kv? l.obs "err").bind optNat,
          fs := ← (kv? l.obs "fs").bind optNat, fe := ← (kv? l.obs "fe").bind optNat,
          runs := ← nat l.obs "runs", stuck := ← flag l.obs "stuck",
-         panicked := (kv? l.obs "panic") = some "1",
-         spanic := (kv? l.op "panic") = some "1" }
+         panicked := (kv? l.obs "panic") = some "1" || (kv? l.obs "panic") = some "2",
+         goexit := (kv? l.obs "panic") = some "2",
+         spanic := (kv? l.op "panic") = some "1",
+         pk := ← (match kv? l.op "pk" with | none => some 1 | some v => v.toNat?),
+         ek := ← (match kv? l.op "ek" with | none => some 1 | some v => v.toNat?),
+         ep := ← (match kv? l.op "ep" with | none => some 0 | some v => v.toNat?) }
 
 /-- well-formedness of one observed call (a broken harness or a broken stamp order is a mismatch). -/
 def wellFormed (o : Obs) : Option String :=
@@ -44,6 +48,11 @@ def wellFormed (o : Obs) : Option String :=
     | some s, some e => if o.runs = 0 then some "stamps-without-run" else if o.inv < s && s < e && e < o.ret then none else some "inv<fs<fe<ret"
     | none, none => if o.runs = 0 then none else some "run-without-stamps"
     | _, _ => some "half-stamped"
+
+def errKindName : Nat → String
+  | 1 => "pointer" | 2 => "wrapped" | 3 => "value-typed" | 4 => "typed-nil" | _ => "?"
+def exitKindName : Nat → String
+  | 1 => "panic-string" | 2 => "panic-error-value" | 3 => "runtime.Goexit" | _ => "?"
 
 def dupIds (h : List Obs) : Bool := h.any fun a => h.any fun b => a.id = b.id && a.line ≠ b.line
 
@@ -127,8 +136,19 @@ def runSection (r : Report) (s : Section) : Report := Id.run do
   r := r.addCover s!"{mode}-sections"
   if kvStr s.cfg "herd" "0" = "1" then r := r.addCover s!"{mode}-sections-herd"
   if mode = "rm" && kvStr s.cfg "sfd" "-" ≠ "-" then r := r.addCover "rm-sections-delayed-flight-entry"
+  if via = "cacheNode.Take" && kvStr s.cfg "dst" "0" = "1" then r := r.addCover "cacheNode.Take-sections-destination-reused-and-overwritten"
   for o in h do
     r := r.addCover s!"{mode}-calls"
+    -- outcome kinds of the user function, per object / user
+    let who := if via = "" then mode else via
+    if o.ran && o.serr && !o.spanic then r := r.addCover s!"{who}-fn-error-kind-{o.ek}({errKindName o.ek})"
+    if o.ran && o.spanic then r := r.addCover s!"{who}-fn-abnormal-kind-{o.pk}({exitKindName o.pk})"
+    if !o.ran && o.err.isSome then
+      match h.find? (fun l => some l.id = o.err) with
+      | some l => r := r.addCover s!"{who}-joiner-got-error-kind-{l.ek}({errKindName l.ek})"
+      | none => pure ()
+    if o.goexit then r := r.addCover s!"{who}-call-ended-by-goexit"
+    if via ≠ "" then r := r.addCover s!"{via}-entry-point-{o.ep}"
     if o.ran then r := r.addCover s!"{mode}-executed" else r := r.addCover s!"{mode}-shared"
     if o.err.isSome then r := r.addCover s!"{mode}-err-result"
     if o.hold then r := r.addCover s!"{mode}-held"
